@@ -5,6 +5,7 @@
 -/
 import Lean.Data.Json
 import BVM.Model.V2
+import BVM.Proofs.V2
 open Lean BVM
 
 namespace Drv
@@ -55,6 +56,44 @@ def showFR (r : FR KVs) : String :=
   | .ok m => "ok " ++ (jsonOfY (.map m)).compress
   | .error e => "err " ++ e.cls
 
+def optInt (j : Json) (k : String) : Option Int := (j.getObjValAs? Int k).toOption
+def optStr (j : Json) (k : String) : Option String := (j.getObjValAs? String k).toOption
+
+def aintOf (j : Json) : AInt :=
+  { size := (optInt j "size").getD 0, signed := (j.getObjValAs? Bool "signed").toOption.getD false,
+    saySigned := (j.getObjValAs? Bool "say_signed").toOption.getD false, align := optInt j "align",
+    base := optStr j "base", clock := optStr j "clock", encoding := optStr j "encoding" }
+
+instance : Inhabited AFt := ⟨.str none⟩
+
+partial def aftOf (j : Json) : AFt :=
+  match (optStr j "k").getD "" with
+  | "int" => .int (aintOf j)
+  | "enum" =>
+    let ms : List AMember := match j.getObjVal? "members" with
+      | .ok (.arr a) => a.toList.map fun m =>
+        let l := (optStr m "label").getD ""
+        match optInt m "value", m.getObjVal? "range" with
+        | some v, _ => .value l v
+        | none, .ok (.arr #[a, b]) => .range l (a.getInt?.toOption.getD 0) (b.getInt?.toOption.getD 0)
+        | _, _ => .implicit l
+      | _ => []
+    .enum (aintOf ((j.getObjVal? "vt").toOption.getD .null)) ms
+  | "float" => .float ((optInt j "size").getD 32 == 64) (optInt j "align")
+  | "str" => .str (optStr j "encoding")
+  | "array" =>
+    let e := aftOf ((j.getObjVal? "elem").toOption.getD .null)
+    match optInt j "length" with
+    | some n => .sarr n e
+    | none => .darr e
+  | _ =>
+    let fs : List (String × AFt) := match j.getObjVal? "fields" with
+      | .ok (.arr a) => a.toList.map fun f => match f with
+        | .arr #[.str n, ft] => (n, aftOf ft)
+        | _ => ("?", .str none)
+      | _ => []
+    .struct (optInt j "min-align") fs
+
 def showY (r : FR Y) : String :=
   match r with
   | .ok y => "ok " ++ (jsonOfY y).compress
@@ -70,6 +109,9 @@ def handleFront (j : Json) : Option String :=
     some (showFR (expand2 (worldOfK j "dirs2") (worldOfK j "dirs3") (fuelOf j) (kvsOfJson ((j.getObjVal? "doc").toOption.getD .null))))
   | "convert2" =>
     some (showFR (convert2 (worldOfK j "dirs2") (fuelOf j) (kvsOfJson ((j.getObjVal? "doc").toOption.getD .null))))
+  | "aft" =>
+    let a := aftOf ((j.getObjVal? "ft").toOption.getD .null)
+    some ((Json.arr #[jsonOfY a.r2, jsonOfY a.r3]).compress)
   | "patch" =>
     let v3 := (j.getObjValAs? Bool "v3").toOption.getD true
     let b := yOfJson ((j.getObjVal? "base").toOption.getD .null)
